@@ -115,28 +115,26 @@ public:
     }
 
     IndexType getIndexFromBoxPos(const std::array<long int,Dim>& inBoxPos) const{
-        IndexType index = 0x0LL;
-        IndexType mask = 0x1LL;
+        // Interleave the bits of the coordinates (dimension 0 is the most significant bit of each group).
+        // Unsigned and bounded: never shifts a bit past the end of the index.
+        unsigned long index = 0x0UL;
+        unsigned long remaining = 0x0UL;
 
-        bool shouldContinue = false;
-
-        std::array<IndexType,Dim> mcoord;
+        std::array<unsigned long,Dim> coord;
         for(long int idxDim = 0 ; idxDim < Dim ; ++idxDim){
-            mcoord[idxDim] = (inBoxPos[idxDim] << (Dim - idxDim - 1));
-            shouldContinue |= ((mask << (Dim - idxDim - 1)) <= mcoord[idxDim]);
+            coord[idxDim] = static_cast<unsigned long>(inBoxPos[idxDim]);
+            remaining |= coord[idxDim];
         }
 
-        while(shouldContinue){
-            shouldContinue = false;
-            for(long int idxDim = Dim-1 ; idxDim >= 0 ; --idxDim){
-                index |= (mcoord[idxDim] & mask);
-                mask <<= 1;
-                mcoord[idxDim] <<= (Dim-1);
-                shouldContinue |= ((mask << (Dim - idxDim - 1)) <= mcoord[idxDim]);
+        for(long int shift = 0 ; remaining != 0 && shift + Dim <= 64 ; shift += Dim){
+            for(long int idxDim = 0 ; idxDim < Dim ; ++idxDim){
+                index |= ((coord[idxDim] & 0x1UL) << (shift + Dim - idxDim - 1));
+                coord[idxDim] >>= 1;
             }
+            remaining >>= 1;
         }
 
-        return index;
+        return static_cast<IndexType>(index);
     }
 
     IndexType getChildIndexFromParent(const IndexType inParentIndex, const long int inChild) const{
